@@ -2,7 +2,7 @@
 
 Domain   sealed trees including flat ones (no sub-directories); histories with one or several formats per generation,
          several generations, nested histories with the same or differing formats, generations written with -n
-         or -sf; then either no change or one mutation (edit, rename, add file, add directory, remove file, remove
+         or -sf; files up to 2 MiB; then either no change or one mutation (append, in-place bit flip at any offset, rename, add file, add directory, remove file, remove
          subtree) at a generated depth, the root folder itself weighted 30 %; `verify -dh` on the top folder or on a
          nested history root.
 Oracle   three regions decided by the harness's bookkeeping: tree never edited since the first seal and not mutated =>
@@ -27,7 +27,7 @@ RULE = (
 )
 ASSUMPTIONS = ["default ignore patterns only", "no hash collisions"]
 BUDGET = {"quick": (300, 4), "thorough": (80000, 16)}
-REQUIRED = ["flat", "root_level_mutation", "deep_mutation", "multi_format", "nested", "-n_generation", "sf_generation", "unchanged", "differing_nested_formats", "root_spelled_slash", "root_spelled_dotrel", "renamed_to_other_normal_form", "change_below_percent_folder"]
+REQUIRED = ["flat", "root_level_mutation", "deep_mutation", "multi_format", "nested", "-n_generation", "sf_generation", "unchanged", "differing_nested_formats", "root_spelled_slash", "root_spelled_dotrel", "renamed_to_other_normal_form", "change_below_percent_folder", "big_file_changed_in_place"]
 
 P1 = {
     "kinds": ["create"] * 6 + ["create_sf"] * 2 + ["put_new"],
@@ -53,6 +53,11 @@ def _scn(draw):
         scn["tree"]["Caf\u00e9.mov"] = "accent"
         if not flat:
             scn["tree"]["100% final"] = {"take %d.mov": "percent", "sub%s": {"deep.mov": "d"}, "Caf\u00e9": {"x": "y"}}
+    big = None
+    if "big take.bin" not in used and draw(st.integers(0, 5)) == 0:
+        # a file of one read chunk (1 MiB) or more, later changed in place somewhere in its first / middle / last part
+        big = (1 << 20) + draw(st.sampled_from([0, 0, 1, 4096, 300001, 1 << 20]))
+        scn["tree"]["big take.bin"] = ["c3a5", big]
     scn["steps"].append({"op": "create", "root": "", "formats": draw(gen.formats(3)), "flags": []})
     if draw(st.booleans()):
         scn["steps"].append({"op": "create", "root": "", "formats": draw(gen.formats(2)), "flags": draw(st.sampled_from([[], [], ["-n"]]))})
@@ -93,6 +98,8 @@ def _scn(draw):
             mut = {"kind": kind, "path": (parent + "/" if parent else "") + "zz_new_" + draw(gen.names("plain"))}
         if mut and (mut["path"] in m.files or mut["path"] in m.dirs) and mut["kind"] in ("add", "add_dir"):
             mut = None
+    if big and draw(st.booleans()):
+        mut = {"kind": "edit_inplace", "path": "big take.bin", "at": draw(st.sampled_from([0, 0, 1, 1000, (1 << 20) - 1, 1 << 20, big - 1])) % big}
     scn["mutation"] = mut
     roots = [""] + [r for r in m.roots if r]
     scn["target"] = draw(st.sampled_from(roots + [""] * (2 * len(roots))))
@@ -149,6 +156,11 @@ def run_case(scn, ctx):
             if w.under(p, target) and p != target:
                 if mu["kind"] == "edit":
                     w.put(p, w.files[p] + b"~")
+                elif mu["kind"] == "edit_inplace":
+                    b = bytearray(w.files[p])
+                    b[mu["at"]] ^= 0x01
+                    w.put(p, bytes(b))
+                    feats.add("big_file_changed_in_place")
                 elif mu["kind"] == "rm":
                     w.rm(p)
                 elif mu["kind"] == "rmtree":
